@@ -266,6 +266,30 @@ def phase_stream(rng, pid):
     return cases
 
 
+def clonepoint_stream(rng, pid):
+    """IMPL-ONLY: `cloned()` over a slice / a wrapped iterator of references where `Clone::clone` is a scheduling point and may
+    panic: another thread skips, pulls and queries while a clone is in flight"""
+    cases = []
+    i = 0
+    progs = [[["next", "next"], ["skip", "next", "hasmore", "next"]], [["chunk 2 all"], ["skip", "hasmore", "next"]],
+             [["next"], ["next", "skip", "hasmore", "len", "next"]], [["foreach 1"], ["skip", "next", "hasmore"]]]
+    for kind in ("slice", "vecref", "iterref"):
+        for pr in progs:
+            for cp in (None, 0, 1):
+                for sched in ([0, 0, 1, 1, 1, 1, 1, 1, 1, 1, 0], [0, 0, 0, 1, 1, 1, 1, 1, 1], [0, 1, 0, 1, 1, 1, 1, 0, 1, 1], [1, 0, 0, 1, 1, 1, 1]):
+                    c = make_source(rng, "%s-clp%d" % (pid, i), kind, 4, hint="exact")
+                    c.adapt = "cloned"
+                    c.clonepoint = True
+                    c.clonepanic = cp
+                    c.threads = [list(t) for t in pr]
+                    c.sched = list(sched)
+                    c.owner = "drop"
+                    c.tags = {"implonly", "nomodel"}
+                    cases.append(c)
+                    i += 1
+    return cases
+
+
 def zst_stream(rng, pid):
     """zero-sized element types: `ptr.add(i) == ptr`, slices of any length occupy no memory"""
     cases = []
@@ -677,7 +701,7 @@ def stream_for0(pid, tier, seed):
                 for _ in range(rng.randint(2, 6) + min(k, 6)):
                     t.append(rng.choice(["next", "next", "chunk 2 all", "hasmore", "len"]))
             cases.append(c)
-        return cases + huge_then_skip_stream(rng, pid)
+        return cases + huge_then_skip_stream(rng, pid) + clonepoint_stream(rng, pid)
     if pid == "C07":
         prof = dict(kinds=["iter", "iterref"], skip=True, query=True)
         cases = defects + pulls_stream(rng, tier, pid, prof=prof, n_random=1500 if not big else 60000, exh=False)
